@@ -209,7 +209,9 @@ pub fn req_case(out: &mut Out, w: &mut Worker, rc: &mut ReqCases, prop: &str, te
         if ans.contains("boundary=0") { out.oracle_fail("C06", "the error span does not start on a char boundary inside the input", input.clone()); }
     } else {
         out.stat("req.ok");
-        if ans.contains("ENTRYPOINTS-DIFFER") { out.oracle_fail(prop, "Requirement::from_str and Requirement::parse_reporter disagree", input.clone()); }
+        // with the extension feature a text after `@` that is not a URL is a path: relative to the working
+        // directory `parse_reporter` is given, an error for `from_str`, which has none — a documented difference
+        if ans.contains("ENTRYPOINTS-DIFFER") && !cfg!(feature = "ext") { out.oracle_fail(prop, "Requirement::from_str and Requirement::parse_reporter disagree", input.clone()); }
     }
     ans
 }
@@ -716,7 +718,8 @@ fn url_rule_oracle(out: &mut Out, text: &str, after_at: &str, ans: &str, vars: &
         let expanded = expand_spec(url, vars);
         match url::Url::parse(&expanded) {
             Ok(u) => if u.to_string() != shown { out.oracle_fail("C18", "the parsed URL is not the URL of the text after `${NAME}` expansion", input.clone()); },
-            Err(_) => out.oracle_fail("C18", "accepted although the expanded text is not a URL", input.clone()),
+            // (with the extension feature such a text is a path, made absolute against the working directory)
+            Err(_) => if !cfg!(feature = "ext") { out.oracle_fail("C18", "accepted although the expanded text is not a URL", input.clone()) },
         }
         out.stat("c18.accepted");
     } else {
